@@ -547,7 +547,7 @@ NPROC = 8
 def run(run):
     import multiprocessing
     quick = run.tier == "quick"
-    cfgs = [("Str_quick", 3)] if quick else [("Str_quick", 3), ("Str_thorough", 3), ("Str_wide", 2)]
+    cfgs = [("Str_quick", 3)] if quick else [("Str_thorough", 3), ("Str_wide", 2)]
     nev = 36000 if quick else 594000
     # the pool is forked before any thread exists
     pool = multiprocessing.get_context("fork").Pool(NPROC)
